@@ -16,7 +16,7 @@ for p in ids:
     os.makedirs(out, exist_ok=True)
     earlier = []
     for d in sorted(os.listdir(os.path.join(V, 'seeded'))):
-        if d.startswith(p) and d[len(p):] in ('', 'b', 'c', 'd', 'e') and d != name:
+        if d.startswith(p) and len(d) <= len(p) + 1 and d != name:
             m = json.load(open(os.path.join(V, 'seeded', d, 'meta.json')))
             earlier.append("- " + m['summary'][:260].replace("\n", " ") + " ...")
     pr = props[p]
@@ -46,6 +46,7 @@ BUILD NOTES (sandbox is offline):
   echo 'replace github.com/md14454/gosensors => /tmp/seedaid/gosensors' >> /tmp/alt_{name}.mod; then `go build -modfile /tmp/alt_{name}.mod ./...`
   (a pure-Go stand-in). If your demo needs those packages it must use the same -modfile in its command.
 * the sandbox runs as root (chown works). `go test -race` works.
+* Do NOT use `git stash` (the stash is shared between worktrees of one repository and other workers use it at the same time); to compare with the clean tree use `git diff > /tmp/mine.diff; git checkout -- .` and `git apply /tmp/mine.diff`.
 
 DELIVERABLES in {out}/ :
 * patch.diff — `git diff` of the SOURCE change only (must apply with `git apply` on a clean checkout; no demo files in it)
